@@ -268,6 +268,17 @@ where
                     }
                 }
 
+                // Guarantee progress when the number of lines is unlimited: if the line is
+                // still empty and not even the first grapheme fits beside the wrap symbol (a
+                // double-width character in a two-column panel), place it anyway. Otherwise
+                // the same text would be pushed back onto the stack forever. (With a line
+                // limit the loop ends at the limit and the rest is truncated.)
+                if byte_split_pos == 0 && curr_line.len == 0 && max_lines == 0 {
+                    if let Some(&(item_len, _)) = graphemes.first() {
+                        byte_split_pos = item_len;
+                    }
+                }
+
                 let this_line = &text[..byte_split_pos];
                 line_segments.push((style, this_line));
                 &text[byte_split_pos..]
